@@ -478,8 +478,14 @@ class Lockstep:
         self.ctx.acc.cls("insert_stamped")
 
     def op_insert_multiple(self, mps, tz, mode, via, bad_at=None, meas=None):
-        """mode: 'inorder' (sorted & clamped), 'asis'. bad_at: position of a non-Point inside the iterable."""
+        """mode: 'inorder' (sorted & clamped), 'asis'; 'asis_recycled': the iterable is a generator that yields one Point object
+        again and again, re-filled between the yields (CSV databases; memory storage keeps the objects themselves); 'asis_reading':
+        a generator that reads the database it is being inserted into while it is consumed (an "only what is not there yet" filter).
+        bad_at: position of a non-Point inside the iterable."""
         mps = [copy.deepcopy(m) for m in mps]
+        special = mode if mode in ("asis_recycled", "asis_reading") else None
+        if special:
+            mode = "asis"
         if mode == "inorder":
             mps.sort(key=lambda m: m["time"])
             mps = [self._resolve_time(m, True) for m in mps]
@@ -507,12 +513,45 @@ class Lockstep:
                 items.insert(min(bad_at, len(items)), Point(time=max([m["time"] for m in mps] + [p["time"] for p in self.model.points]), measurement="m1", tags={"a": "x\ud800"}, fields={"a": 1}))
             elif bad_at is not None:
                 items.insert(min(bad_at, len(items)), {"not": "a point"})
+            feed = items
+            if special == "asis_recycled" and real.kind == "csv":
+                def recycled(_items=items):
+                    from tinyflux import Point
+
+                    one = None
+                    for it in _items:
+                        if not isinstance(it, Point):
+                            yield it
+                            continue
+                        if one is None:
+                            one = Point(time=it.time, measurement=it.measurement, tags=dict(it.tags), fields=dict(it.fields))
+                        else:
+                            one.time, one.measurement = it.time, it.measurement
+                            one.tags.clear()
+                            one.tags.update(it.tags)
+                            one.fields.clear()
+                            one.fields.update(it.fields)
+                        yield one
+
+                feed = recycled()
+                self.ctx.acc.cls("insert_multiple_recycled_point")
+            elif special == "asis_reading":
+                def reading(_items=items, _db=real.db):
+                    for i, it in enumerate(_items):
+                        if i >= 1:
+                            _db.contains(qast.build(["leaf", "tag", [["key", "zz_never"]], ["exists"]]))
+                            if i == 2:
+                                len(_db)
+                        yield it
+
+                feed = reading()
+                self.ctx.acc.cls("insert_multiple_generator_reads_db")
             if via in ("handle", "old_handle"):
-                fn = lambda: real.handle(use_meas, via == "old_handle").insert_multiple(iter(items))  # noqa: E731
+                fn = lambda: real.handle(use_meas, via == "old_handle").insert_multiple(iter(feed))  # noqa: E731
             elif via == "db_meas":
-                fn = lambda: real.db.insert_multiple(iter(items), measurement=use_meas)  # noqa: E731
+                fn = lambda: real.db.insert_multiple(iter(feed), measurement=use_meas)  # noqa: E731
             else:
-                fn = lambda: real.db.insert_multiple(items)  # noqa: E731
+                fn = lambda: real.db.insert_multiple(feed)  # noqa: E731
             if bad_at is None or (unencodable and real.kind != "csv"):
                 r = self.call(real, "insert_multiple", fn)
                 if r != len(items):
